@@ -15,10 +15,18 @@ Record obs := {
   o_sem_free : bool }.
 
 (* ---------- decidable equality on trace events ---------- *)
+Definition tstamp_eqb (a b : tstamp) : bool :=
+  match a, b with
+  | TNo, TNo | TNow, TNow => true
+  | TOwn n, TOwn m => n =? m
+  | _, _ => false
+  end.
+Definition has_ts (t : tstamp) : bool := match t with TNo => false | _ => true end.
 Definition qitem_eqb (a b : qitem) : bool :=
   match a, b with
   | QToken x, QToken y | QStart x, QStart y | QStop x, QStop y => x =? y
-  | QStatus w i s o, QStatus w' i' s' o' => (w =? w') && (i =? i') && (s =? s') && option_eqb Nat.eqb o o'
+  | QStatus w i s o t, QStatus w' i' s' o' t' =>
+      (w =? w') && (i =? i') && (s =? s') && option_eqb Nat.eqb o o' && tstamp_eqb t t'
   | _, _ => false
   end.
 Definition cev_eqb (a b : cev) : bool :=
@@ -28,7 +36,7 @@ Definition cev_eqb (a b : cev) : bool :=
   | CPut q, CPut r | CGet q, CGet r => qitem_eqb q r
   | CGetIntr, CGetIntr => true
   | CStatus w i s o t r, CStatus w' i' s' o' t' r' =>
-      (w =? w') && (i =? i') && (s =? s') && option_eqb Nat.eqb o o' && Bool.eqb t t' && Bool.eqb r r'
+      (w =? w') && (i =? i') && (s =? s') && option_eqb Nat.eqb o o' && tstamp_eqb t t' && Bool.eqb r r'
   | _, _ => false
   end.
 
@@ -39,8 +47,8 @@ Definition joins (tr : list (tid * cev)) : list nat :=
   flat_map (fun e => match snd e with CJoin w => [w] | _ => [] end) tr.
 Definition has_intr (tr : list (tid * cev)) : bool :=
   existsb (fun e => match snd e with CGetIntr => true | _ => false end) tr.
-(* what main passed to the caller's stream result for worker w: (id, status, own route, timestamped, raised) *)
-Definition delivered (w : nat) (tr : list (tid * cev)) : list (nat * nat * option nat * bool * bool) :=
+(* what main passed to the caller's stream result for worker w: (id, status, own route, timestamp, raised) *)
+Definition delivered (w : nat) (tr : list (tid * cev)) : list (nat * nat * option nat * tstamp * bool) :=
   flat_map (fun e => match snd e with
                      | CStatus w' i s o t r => if w' =? w then [(i, s, o, t, r)] else []
                      | _ => []
@@ -60,7 +68,7 @@ Definition own_thread (n : nat) (e : tid * cev) : bool :=
   match e with
   | (t, CSpawn w) | (t, CJoin w) | (t, CStatus w _ _ _ _ _) => (t =? 0) && (w <? n)
   | (t, CGet _) | (t, CGetIntr) => t =? 0
-  | (t, CPut (QToken w)) | (t, CPut (QStart w)) | (t, CPut (QStop w)) | (t, CPut (QStatus w _ _ _)) =>
+  | (t, CPut (QToken w)) | (t, CPut (QStart w)) | (t, CPut (QStop w)) | (t, CPut (QStatus w _ _ _ _)) =>
       (t =? S w) && (w <? n)
   | (t, CG _) => t <=? n
   end.
@@ -99,20 +107,22 @@ Definition common_okb (n : nat) (mt : option nat) (o : obs) : bool :=
       else match o_stops o with [] => true | _ => false end).
 
 (* ---------- stream: delivery ---------- *)
-Fixpoint ev_of (l : list qitem) : list (nat * nat * option nat) :=
+(* an event: test id, status, the worker's own route code, timestamp *)
+Fixpoint ev_of (l : list qitem) : list (nat * nat * option nat * tstamp) :=
   match l with
   | [] => []
-  | QStatus _ i s o :: r => (i, s, o) :: ev_of r
+  | QStatus _ i s o t :: r => (i, s, o, t) :: ev_of r
   | _ :: r => ev_of r
   end.
-Definition ev3_eqb (a b : nat * nat * option nat) : bool :=
-  (fst (fst a) =? fst (fst b)) && (snd (fst a) =? snd (fst b)) && option_eqb Nat.eqb (snd a) (snd b).
+Definition ev3_eqb (a b : nat * nat * option nat * tstamp) : bool :=
+  (fst (fst (fst a)) =? fst (fst (fst b))) && (snd (fst (fst a)) =? snd (fst (fst b)))
+  && option_eqb Nat.eqb (snd (fst a)) (snd (fst b)) && tstamp_eqb (snd a) (snd b).
 
 Definition stream_worker_okb (base raised : bool) (tr : list (tid * cev)) (w : nat) (s : list sitem) : bool :=
   let d := delivered w tr in
   let exp := ev_of (emits w base s) in
-  forallb (fun x => snd (fst x)) d                                       (* every event carries a timestamp *)
-  && is_prefix ev3_eqb (map (fun x => fst (fst x)) d) exp          (* exactly once, in that worker's order, its route *)
+  forallb (fun x => has_ts (snd (fst x))) d                              (* every event carries a timestamp *)
+  && is_prefix ev3_eqb (map (fun x => fst x) d) exp   (* exactly once, in that worker's order, its route, its own timestamp if it has one *)
   && (raised || (length d =? length exp)).                               (* all of them unless run() was aborted *)
 
 (* ---------- classic: one test at a time, and the worker's own log ---------- *)
@@ -200,13 +210,15 @@ Definition Common (n : nat) (mt : option nat) (o : obs) : Prop :=
       o_stops o = firstn (stops_expected (main_stops (o_trace o)) (length unreaped)) unreaped).
 
 (* stream: what main passed on for worker w is, event for event, what w emitted (its own route code
-   under w's), each with a timestamp; all of it when run() returned normally *)
+   under w's), each with a timestamp - the worker's own where it supplied one, otherwise (keyword left out
+   or timestamp=None passed explicitly) one assigned on the way (TNow; its value is not compared); all of
+   it when run() returned normally *)
 Definition StreamWorker (base raised : bool) (tr : list (tid * cev)) (w : nat) (s : list sitem) : Prop :=
   let d := delivered w tr in
   let exp := ev_of (emits w base s) in
-  (forall x, In x d -> snd (fst x) = true)
-  /\ (exists rest, map (fun x => fst (fst x)) d ++ rest = exp)
-  /\ (raised = false -> map (fun x => fst (fst x)) d = exp).
+  (forall x, In x d -> has_ts (snd (fst x)) = true)
+  /\ (exists rest, map (fun x => fst x) d ++ rest = exp)
+  /\ (raised = false -> map (fun x => fst x) d = exp).
 
 (* the block of the errored broken-runner test *)
 Definition BrokenRunnerBlock (body : list gev) : Prop :=
